@@ -86,7 +86,11 @@ def container(lst, salt):
     that a run is reproducible; anything unhashable stays a list"""
     if not isinstance(lst, list):
         return lst
-    k = (len(lst) + salt) % 4
+    k = (len(lst) + salt) % 6
+    if k == 4:
+        return iter(list(lst))                      # a one-shot iterator
+    if k == 5:
+        return (x for x in list(lst))               # a generator
     try:
         return [lst, tuple(lst), set(lst), frozenset(lst)][k] if len(set(lst)) == len(lst) or k < 2 else tuple(lst)
     except TypeError:
@@ -198,6 +202,8 @@ def query(sp, name, args):
     if name == "linComp":
         import numpy as np
         g = groups_tok(args[1])
+        if g is not None:
+            g = [container(x, len(sp) + i) if isinstance(x, list) else x for i, x in enumerate(g)]
         w = ival(args[0], len(sp))
         r = sp.get_linear_sequence_composition(w) if g is None else sp.get_linear_sequence_composition(w, g)
         return mat(np.vstack((np.asarray(r[0], dtype=float), np.atleast_2d(np.asarray(r[1], dtype=float)))))
@@ -205,6 +211,8 @@ def query(sp, name, args):
         ua = dict_tok(args[1])
         size = args[0]
         size = int(size) if size.lstrip("-").isdigit() else size
+        if isinstance(size, int) and (size + len(sp)) % 5 == 0:
+            size = str(size) if len(sp) % 2 else " %d " % size      # the size as a numeric string (the API applies int() to it)
         r = sp.get_reduced_alphabet_sequence(size, ua) if ua else sp.get_reduced_alphabet_sequence(size)
         return ("red", r[0], "".join(r[1]))
     if name == "cplx":
